@@ -357,9 +357,7 @@ def rule_model_filter(chk, idx, tier):
     sp = spans(grid)
     classes = {}
     for k in (1, 2):
-        for combo in itertools.permutations(sp, k) if k == 2 else [(s,) for s in sp]:
-            if k == 2 and combo[0] == combo[1]:
-                continue
+        for combo in (list(itertools.permutations(sp, 2)) + [(x, x) for x in sp]) if k == 2 else [(s,) for s in sp]:
 
             def extract(it, args, kwargs, combo=combo):
                 return [Obj(None, {'start': s, 'length': e - s + 1, 'text': TEXT[s:e + 1], 'type': 't', 'data': None})
@@ -391,25 +389,23 @@ def rule_model_filter(chk, idx, tier):
                 st['bad'].append((combo, sorted(got)))
             elif not got:
                 st['bad'].append((combo, got))
-    failing = sorted(r for r in classes if classes[r]['bad'] and r not in ('single', 'apart'))
-    for r in ('single', 'apart'):
-        st = classes[r]
-        construct = 'AbstractNumberWithUnitModel.parse[%s]' % ('one span' if r == 'single' else 'two spans apart')
+    for r in ('single', 'apart', 'equal', 'covers', 'inside', 'crosses'):
+        st = classes.get(r)
+        if st is None:
+            raise AnalysisError('C12.model-filter: relation class %s not generated' % r)
+        what = {'single': 'one span', 'apart': 'two spans apart', 'equal': 'the same span twice',
+                'covers': 'a second span that covers the first', 'inside': 'a second span inside the first',
+                'crosses': 'a second span that crosses the first'}[r]
+        construct = 'AbstractNumberWithUnitModel.parse[%s]' % what
         if st['bad']:
             combo, got = st['bad'][0]
-            chk.bad(rid, c.mod.path, construct, 'entities lost or duplicated',
-                    'AbstractNumberWithUnitModel.parse: for extractor spans %s the model returns %s' % (list(combo), got), fn.lineno)
+            chk.bad(rid, c.mod.path, construct, 'overlapping entities returned' if r not in ('single', 'apart') else 'entities lost or duplicated',
+                    'AbstractNumberWithUnitModel.parse: when the extractor(s) hand it %s, e.g. %s, the model returns %s%s'
+                    % (what, list(combo), got, '' if r in ('single', 'apart') else
+                       ' - its filter only refuses a new result that contains an earlier one'), fn.lineno)
         else:
-            chk.ok(rid, c.mod.path, construct, 'returned as they are', fn.lineno)
-    construct = 'AbstractNumberWithUnitModel.parse[two spans that overlap]'
-    if failing:
-        combo, got = classes[failing[0]]['bad'][0]
-        chk.bad(rid, c.mod.path, construct, 'both returned',
-                'AbstractNumberWithUnitModel.parse: when the extractor hands it two spans that overlap (relations of the second to '
-                'the first that fail: %s), both come back as entities, e.g. spans %s -> %s; the containment filter only drops an '
-                'earlier result that the new one contains' % (', '.join(failing), list(combo), got), fn.lineno)
-    else:
-        chk.ok(rid, c.mod.path, construct, 'one of them is kept', fn.lineno)
+            chk.ok(rid, c.mod.path, construct, 'one entity per character' if r not in ('single', 'apart') else 'returned as they are',
+                   fn.lineno)
     chk.control(rid, rel((0, 3), (2, 5)) == 'crosses' and rel((0, 5), (2, 3)) == 'covers')
 
 
